@@ -265,6 +265,7 @@ type c02Obs struct {
 	Class      lib.Class `json:"class"`
 	Second     lib.Class `json:"second_authorize"`
 	AfterQuery lib.Class `json:"authorize_after_query"`
+	Third      lib.Class `json:"authorize_query_authorize"`
 	Err        string    `json:"err,omitempty"`
 }
 
@@ -283,6 +284,11 @@ func c02Observe(b *biscuit.Biscuit, pub ed25519.PublicKey, a ast.AuthContent) c0
 			o.Err = core.Head(err.Error(), 200)
 		}
 		o.Second = lib.Classify(az.Authorize())
+		// ... then queries on the evaluated authorizer, then Authorize once more
+		for _, q := range c02Probes(a) {
+			_, _ = az.Query(q.Lib())
+		}
+		o.Third = lib.Classify(az.Authorize())
 		// the same request on a fresh authorizer, but with a Query before Authorize
 		az2, err := b.AuthorizerFor(biscuit.WithSingularRootPublicKey(pub), lib.BigLimits())
 		if err == nil {
@@ -441,6 +447,9 @@ func c02Run(c *core.C) {
 				if parent.Class != lib.OK && (child.Class == lib.OK || child.Second == lib.OK) {
 					c.Violate("attenuation-widened/"+kind, fmt.Sprintf("parent is refused (%s) but the attenuated token is accepted", parent.Class), desc)
 				}
+				if parent.Third != lib.OK && parent.Third != lib.LIMIT && parent.Third != "" && child.Third == lib.OK {
+					c.Violate("attenuation-widened-on-authorize-query-authorize/"+kind, fmt.Sprintf("Authorize, Query, Authorize on one authorizer: the parent is refused (%s) but the attenuated token is accepted the last time", parent.Third), desc)
+				}
 				if parent.AfterQuery != lib.OK && parent.AfterQuery != lib.LIMIT && parent.AfterQuery != "" && child.AfterQuery == lib.OK {
 					c.Violate("attenuation-widened-after-query/"+kind, fmt.Sprintf("with a Query before Authorize the parent is refused (%s) but the attenuated token is accepted", parent.AfterQuery), desc)
 				}
@@ -523,7 +532,8 @@ func c03Run(c *core.C) {
 			continue
 		}
 		without := lib.Observe(base.B, base.Pub, a, s.Probes)
-		withoutAfterQuery := c02Observe(base.B, base.Pub, a).AfterQuery
+		withoutObs := c02Observe(base.B, base.Pub, a)
+		withoutAfterQuery := withoutObs.AfterQuery
 		c.Eval(1)
 		if without.Class == lib.LIMIT || without.Class == lib.PANIC {
 			c.Inconc("base outcome " + string(without.Class))
@@ -571,7 +581,11 @@ func c03Run(c *core.C) {
 					c.Violate("check-free-block-changes-query-results", fmt.Sprintf("authorizer query results differ with a check-free block at position %d", p), desc)
 				}
 				// the same comparison with the queries run BEFORE Authorize
-				if wq, woq := c02Observe(tok.B, tok.Pub, a).AfterQuery, withoutAfterQuery; wq != woq && wq != lib.LIMIT && woq != lib.LIMIT {
+				wobs := c02Observe(tok.B, tok.Pub, a)
+				if wq, woq := wobs.Third, withoutObs.Third; wq != woq && wq != lib.LIMIT && woq != lib.LIMIT {
+					c.Violate("check-free-block-changes-outcome-on-authorize-query-authorize", fmt.Sprintf("Authorize, Query, Authorize on one authorizer: last outcome %s without the block, %s with it (position %d)", woq, wq, p), desc)
+				}
+				if wq, woq := wobs.AfterQuery, withoutAfterQuery; wq != woq && wq != lib.LIMIT && woq != lib.LIMIT {
 					c.Violate("check-free-block-changes-outcome-after-query", fmt.Sprintf("with a Query before Authorize: outcome %s without the block, %s with it (position %d)", woq, wq, p), desc)
 				}
 				if sensitive {
@@ -586,6 +600,24 @@ func c03Run(c *core.C) {
 		// positive direction: authority-level facts (stated or derived) are visible to every block
 		if len(d0.Closure) > 0 {
 			keys := d0.Closure.Keys()
+			// two times in three ask for a DERIVED fact (not stated by the authority block or the authorizer)
+			stated := map[string]bool{}
+			for _, sf := range base.Blocks[0].Facts {
+				stated[sf.Key()] = true
+			}
+			for _, sf := range a.Facts {
+				stated[sf.Key()] = true
+			}
+			derived := []string{}
+			for _, k := range keys {
+				if !stated[d0.Closure[k].Key()] {
+					derived = append(derived, k)
+				}
+			}
+			if len(derived) > 0 && r.Intn(3) != 0 {
+				keys = derived
+				c.Count("visibility_checks_on_derived_facts", 1)
+			}
 			f := d0.Closure[keys[r.Intn(len(keys))]]
 			q := ast.Pred{Name: f.Name, Terms: make([]ast.Term, len(f.Terms))}
 			for i, t := range f.Terms {
@@ -606,6 +638,26 @@ func c03Run(c *core.C) {
 						map[string]any{"token_without": gen.Texts(base.Blocks), "asking_block": gen.Texts([]ast.Block{asking})[0], "position": p, "authorizer": gen.AuthTexts(a)})
 				}
 				c.Count("visibility_checks", 1)
+				// the same on an authorizer that has already been through one Authorize (while it
+				// was still empty): the content arrives afterwards, and what the authority rules
+				// derive from the authorizer's facts must still reach the asking block
+				var late lib.Class
+				if pi := lib.Try(func() {
+					az, err := tok.B.AuthorizerFor(biscuit.WithSingularRootPublicKey(tok.Pub), lib.BigLimits())
+					if err != nil {
+						late = lib.FAIL
+						return
+					}
+					_ = az.Authorize()
+					lib.AddContent(az, a)
+					late = lib.Classify(az.Authorize())
+				}); pi != nil {
+					c.Violate("authorize-panic", pi.Msg, nil)
+				} else if late != with.Class && late != lib.LIMIT && with.Class != lib.LIMIT {
+					c.Violate("authority-level-fact-invisible-to-block-on-second-authorize", fmt.Sprintf("content added after a first Authorize on the same authorizer: outcome %s, a fresh authorizer with the same content gives %s (block asks for %s)", late, with.Class, f.Key()),
+						map[string]any{"token": gen.Texts(tok.Blocks), "asking_block": gen.Texts([]ast.Block{asking})[0], "position": p, "authorizer": gen.AuthTexts(a)})
+				}
+				c.Eval(1)
 			}
 		}
 	}
@@ -645,8 +697,9 @@ func init() {
 		},
 	})
 	core.Register(&core.Prop{
-		ID:    "C03",
-		Level: "exploration",
+		ID:        "C03",
+		MinCounts: map[string]int{"visibility_checks": 400, "visibility_checks_on_derived_facts": 80, "rule_only_blocks": 300},
+		Level:     "exploration",
 		Rule: "each case: 4 error-free scenarios; for each, 3 check-free blocks that state or derive exactly the atoms that policies, authorizer checks, authority checks and other blocks' checks ask for, inserted at EVERY position after the authority block; outcome class and the answers of one all-variable probe query per predicate must equal those of the token without the block. Leak sensitivity is measured with the reference authorizer R5 (would the class or the probe answers change if the block's facts/rules were visible at authority level). Positive direction: a block check asking for a randomly chosen fact of the reference authority-level closure (stated or derived) must not change the outcome. " +
 			"Non-trivial = distinct leak-sensitive (token, block, position, authorizer) tuples.",
 		Assumptions: []string{"error-free fragment (an erroring block rule legitimately aborts the whole authorization)"},
